@@ -595,8 +595,8 @@ def check_reach(ctx, reach, floors, exempt):
     rep = reach.report() if reach is not None else None
     ctx.extra.setdefault('coverage', {})['impl_reach'] = rep if rep is not None else 'coverage.py unavailable'
     ctx.extra['coverage']['reach_floors'] = floors
-    if ctx.searching:
-        return
+    if ctx.searching or ctx.violations or ctx.broken or ctx.disagreements or ctx.known_seen:
+        return      # something is already reported: a changed outcome distribution is then a symptom, not generator rot
     if low:
         raise common.MachineryError('generator reach below its floor: %r' % low)
     if rep:
